@@ -1,0 +1,30 @@
+//go:build verif
+
+// Contracts for the deductive verifier in /verif (comment-only file; no code).
+
+package mempool
+
+// ---- C41: pooled buffers are handed out empty; a capped pool keeps no buffer above its cap ----
+// verif:func mempool.newBuffer$1
+//@ ensures fresh-buffer-is-empty: typeis(r0, "ptr.bytes.Buffer") && r0 != nil && r0.blen == 0 && r0.rpos == 0 && r0.bcap == 0
+
+// verif:func mempool.Buffer.Get
+//@ requires b.pool != nil
+//@ ensures handed-out-empty: r0 != nil && r0.blen == 0 && r0.rpos == 0
+//@ ensures within-pool-cap: b.pool.pmax < 0 || r0.bcap <= b.pool.pmax
+
+// verif:func mempool.Buffer.Put
+//@ requires b.pool != nil && x != nil && (b.pool.pmax < 0 || x.bcap <= b.pool.pmax)
+//@ modifies x.blen, x.rpos, nput
+//@ ensures returned-clean: x.blen == 0 && x.rpos == 0 && nput == old(nput) + 1
+
+// verif:func mempool.BufferWithCap.Get
+//@ requires b.bp != nil && b.bp.pool != nil && b.max > 0 && b.bp.pool.pmax == b.max
+//@ ensures handed-out-empty: r0 != nil && r0.blen == 0 && r0.rpos == 0
+//@ ensures never-above-cap: r0.bcap <= b.max
+
+// verif:func mempool.BufferWithCap.Put
+//@ requires b.bp != nil && b.bp.pool != nil && x != nil && b.max > 0 && b.bp.pool.pmax == b.max
+//@ modifies x.blen, x.rpos, nput
+//@ ensures oversized-not-kept: x.bcap > b.max ==> nput == old(nput)
+//@ ensures kept-clean: x.bcap <= b.max ==> x.blen == 0 && x.rpos == 0 && nput == old(nput) + 1
